@@ -137,7 +137,24 @@ func Digits() *rapid.Generator[int] {
 // MutateCode derives a wrong (or accidentally right) string from a code.
 func MutateCode(t *rapid.T, code string) string {
 	b := []byte(code)
-	switch rapid.IntRange(0, 11).Draw(t, "mutKind") {
+	switch rapid.IntRange(0, 13).Draw(t, "mutKind") {
+	case 12: // same length, numerically equal under a lenient number parser: sign in place of a leading zero
+		if len(b) > 0 {
+			b[0] = rapid.SampledFrom([]byte{'+', '-', ' '}).Draw(t, "mutSign")
+		}
+		return string(b)
+	case 13: // same length, numerically equal: leading zeros moved / octal-hex looking prefixes
+		if len(b) > 1 {
+			switch rapid.IntRange(0, 2).Draw(t, "mutNum") {
+			case 0:
+				b[0], b[1] = '0', 'x'
+			case 1:
+				b[len(b)-1] = '.'
+			default:
+				b[1] = '_'
+			}
+		}
+		return string(b)
 	case 0: // single digit edit
 		if len(b) > 0 {
 			i := rapid.IntRange(0, len(b)-1).Draw(t, "mutPos")
